@@ -27,6 +27,7 @@ Block grammar (one directive per line; payloads between <<< and >>>):
   forit <fn> <k> <name>          names the ghost iterator of the k-th loop, which must be a `for`
   before <fn> "<anchor>" <<< ... >>>   ghost text before the unique occurrence of anchor in fn
   after  <fn> "<anchor>" <<< ... >>>   ghost text after it
+  beforestmt <fn> "<text inside a statement>" <<< ... >>>   ghost text before the start of the statement containing the anchor
   afterstmt <fn> "<statement start>" <<< ... >>>   ghost text after the `;` ending the statement that starts with the anchor
   R3 <fn> <shape> [<k>]          desugar an iterator adapter / loop shape (see r3_* below); logged
   R4 "<old>" "<new>"             redirect a call to a trusted shim with the same signature; logged
@@ -427,7 +428,7 @@ class Item:
         # `$1`..`$9` in the target stand for a place expression (identifiers joined by `.`); the same placeholder in
         # the replacement is filled with what was matched (the shim is applied to whatever vector the code names)
         toks = re.findall(r"\$\d|\w+|[^\w\s]", old)
-        pat = r"\s*".join((r"(?P<v%s>[A-Za-z_]\w*(?:\[[^\]]*\])?(?:\s*\.\s*[A-Za-z_]\w*(?:\[[^\]]*\])?)*?)" % t[1]) if re.match(r"\$\d$", t) else re.escape(t) for t in toks)
+        pat = r"\s*".join((r"(?P<v%s>[A-Za-z_]\w*(?:\(\s*\))?(?:\[[^\]]*\])?(?:\s*\.\s*[A-Za-z_]\w*(?:\(\s*\))?(?:\[[^\]]*\])?)*?)" % t[1]) if re.match(r"\$\d$", t) else re.escape(t) for t in toks)
         if re.match(r"\w", old):
             pat = r"\b" + pat
         if re.search(r"\w$", old):
@@ -589,6 +590,47 @@ class Item:
         while self.text[j].isspace():
             j += 1
         return j
+
+    def _stmt_start_in_fn(self, fn, pos):
+        """start of the statement (of the innermost enclosing `{ }` block that is not inside parentheses) containing pos:
+        forward scan of the fn body with a bracket stack; a statement ends at a `;` or at the `}` of a block statement"""
+        _, _, bo, end, _ = self.fn_span(fn)
+        stack, starts = [], {}
+        j = bo
+        while j < pos:
+            ch = self.m[j]
+            if ch in "([{":
+                stack.append(ch)
+                if ch == "{":
+                    starts[len(stack)] = j + 1
+            elif ch in ")]}":
+                if stack:
+                    stack.pop()
+                if ch == "}" and stack and stack[-1] == "{":
+                    nxt = re.match(r"\s*(else\b|[),.?;=])", self.m[j + 1:])
+                    if not nxt:
+                        starts[len(stack)] = j + 1
+            elif ch == ";" and stack and stack[-1] == "{":
+                starts[len(stack)] = j + 1
+            j += 1
+        d = len(stack)
+        while d > 0 and stack[d - 1] != "{":
+            d -= 1
+        # a `{` that sits inside parentheses (a struct pattern / literal) is not a block: go further out
+        while d > 0 and any(c in "([" for c in stack[:d]) and "{" in stack[:d - 1]:
+            d2 = d - 1
+            while d2 > 0 and stack[d2 - 1] != "{":
+                d2 -= 1
+            if not any(c in "([" for c in stack[d2:d]):
+                break
+            d = d2
+        k = starts.get(d, bo + 1)
+        while k < pos and self.text[k].isspace():
+            k += 1
+        # skip comment lines (blanked in the mask)
+        while k < pos and self.m[k].isspace():
+            k += 1
+        return k
 
     def r3_all(self, fn, k):
         """let V = RECV.iter().all(|P| BODY);   ==>  index while-loop with early exit (BODY stays in place)"""
@@ -812,7 +854,7 @@ class Item:
         for old_, new_ in getattr(self, "lift_r4", {}).get(fn, []):
             # same target language as R4: `$1`..`$9` stand for a place expression
             toks = re.findall(r"\$\d|\w+|[^\w\s]", old_)
-            pat = r"\s*".join((r"(?P<v%s>[A-Za-z_]\w*(?:\[[^\]]*\])?(?:\s*\.\s*[A-Za-z_]\w*(?:\[[^\]]*\])?)*?)" % t[1]) if re.match(r"\$\d$", t) else re.escape(t) for t in toks)
+            pat = r"\s*".join((r"(?P<v%s>[A-Za-z_]\w*(?:\(\s*\))?(?:\[[^\]]*\])?(?:\s*\.\s*[A-Za-z_]\w*(?:\(\s*\))?(?:\[[^\]]*\])?)*?)" % t[1]) if re.match(r"\$\d$", t) else re.escape(t) for t in toks)
             if re.match(r"\w", old_):
                 pat = r"(?<![\w.])" + pat
             if re.search(r"\w$", old_):
@@ -1240,6 +1282,11 @@ def build_unit(unit_path, repo=REPO):
                 it.d_before(args[0], args[1], payload, int(args[2][1:]) if len(args) > 2 and args[2].startswith("#") else None)
             elif name == "after":
                 it.d_after(args[0], args[1], payload, int(args[2][1:]) if len(args) > 2 and args[2].startswith("#") else None)
+            elif name == "beforestmt":
+                # beforestmt <fn> "<text inside the statement>" <<< ghost >>>: ghost text before the START of the statement that
+                # contains the anchor (an `if let .. = &rule.all {` can become a `match &rule.all {`, a local can be renamed)
+                a_, b_ = it.find_in_fn(args[0], args[1], int(args[2][1:]) if len(args) > 2 and args[2].startswith("#") else None)
+                it.ghost(it._stmt_start_in_fn(args[0], a_), "\n" + payload + "\n")
             elif name == "afterstmt":
                 # afterstmt <fn> "<how the statement starts>" <<< ghost >>>: ghost text after the `;` that ends the statement
                 # beginning with the anchor (the rest of the statement may change without losing the anchor)
